@@ -52,14 +52,14 @@ SIMTIME_NOTE = 'simulated poll-clock seconds advanced by the scheduler (FileWatc
 PROBES = ['write_after_read', 'nested_state_after_update', 'shape_change_after_read', 'file_reload_fired', 'linked_mask_after_update',
           'stat_after_update', 'copy_read', 'view_read', 'poll_tick_no_change', 'poll_after_file_vanished', 'link_swapped_same_endpoints', 'listener_read_inside_write',
           'listener_fresh_clone_compared', 'refresh_drops_component', 'refresh_from_kept_source', 'kept_source_updated',
-          'array_shared_between_datasets', 'refresh_adds_component', 'kept_source_reshaped', 'free_state_read', 'old_state_reapplied', 'viewer_histogram_read', 'viewer_histogram_compared']
+          'array_shared_between_datasets', 'refresh_adds_component', 'kept_source_reshaped', 'free_state_read', 'member_state_read', 'old_state_reapplied', 'viewer_histogram_read', 'viewer_histogram_compared', 'viewer_display_flags_changed']
 PROBES_THOROUGH_ONLY = []
 
-READS = ('read_mask', 'read_val', 'read_stat', 'read_hist', 'read_copy', 'hv_read', 'hv_new', 'read_free')
+READS = ('read_mask', 'read_val', 'read_stat', 'read_hist', 'read_copy', 'hv_read', 'hv_new', 'read_free', 'read_member', 'hv_flags')
 WEIGHTS = {'upd': 6, 'upd_from': 2, 'set_state': 3, 'edit_top': 3, 'add_comp': 1, 'add_link': 1.5, 'remove_link': 0.7, 'swap_link': 1.5,
            'new_group': 2, 'remove_group': 0.5, 'new': 1, 'append': 1.5, 'rewrite': 1.5, 'advance': 2, 'vanish': 0.2,
            'read_mask': 8, 'read_val': 3, 'read_stat': 3, 'read_hist': 2, 'read_copy': 1, 'check': 1.2,
-           'edit_memo': 2, 'edit_nested': 2, 'upd_src': 1.5, 'new_free': 1, 'read_free': 3, 'reapply': 1}
+           'edit_memo': 2, 'edit_nested': 2, 'upd_src': 1.5, 'new_free': 1, 'read_free': 3, 'reapply': 1, 'read_member': 3}
 VIEWS = [None, None, [[0, 3, 1]], [[1, 4, 2]], 'int0', [[0, 2, 1], [0, 2, 1]]]
 
 
@@ -92,7 +92,7 @@ def generate(rng, cfg, guards):
         # a real histogram viewer (matplotlib, Agg): what it plots is cached in HistogramLayerState
         ops.append(['hv_new', 0])
         n = min(n, 14)
-        pairs = sorted(dict(pairs, hv_read=8).items())
+        pairs = sorted(dict(pairs, hv_read=8, hv_flags=4).items())
     while len(ops) < n:
         k = rng.wpick(pairs)
         if k == 'new':
@@ -112,6 +112,8 @@ def generate(rng, cfg, guards):
             ops.append([k, W.gen_recipe(rng, 1, kinds)])
         elif k == 'read_free':
             ops.append([k, r8(), r8(), rng.randrange(len(VIEWS))])
+        elif k == 'read_member':
+            ops.append([k, r8(), r8(), r8(), rng.randrange(len(VIEWS))])
         elif k == 'reapply':
             ops.append([k, r8(), r8()])
         elif k in ('set_state', ):
@@ -146,6 +148,8 @@ def generate(rng, cfg, guards):
             ops.append([k, r8(), r8()])
         elif k == 'hv_read':
             ops.append([k])
+        elif k == 'hv_flags':
+            ops.append([k, rng.chance(0.5), rng.chance(0.3)])
         else:
             ops.append(['check'])
     ops.append(['check'])
@@ -264,6 +268,13 @@ def apply_op(w, op, res, reading, skip=False):
                     pass
             res.probe('viewer_histogram_read')
             return 'read'
+        if k == 'hv_flags':
+            # display settings of the viewer (not part of what its cache is keyed on): normalised / cumulative
+            if w.hv is None:
+                return 'none'
+            w.hv.state.normalize, w.hv.state.cumulative = bool(op[1]), bool(op[2])
+            res.probe('viewer_display_flags_changed')
+            return 'read'
         if k == 'hv_new':
             # a viewer only reads the data: it exists in the warm world only
             from glue.viewers.histogram.viewer import SimpleHistogramViewer
@@ -290,6 +301,15 @@ def apply_op(w, op, res, reading, skip=False):
                 w.mark_read(st)
                 res.probe('free_state_read')
                 d.get_mask(st, view=w.view_for(d, op[3]))
+            elif k == 'read_member':
+                g = w.pick_group(op[2])
+                kids = members_of(g.subset_state) if g is not None else []
+                if not kids:
+                    return 'none'
+                st = kids[op[3] % len(kids)]
+                w.mark_read(g.subset_state)
+                res.probe('member_state_read')
+                d.get_mask(st, view=w.view_for(d, op[4]))
             elif k == 'read_mask':
                 g = w.pick_group(op[2])
                 if g is None:
@@ -611,6 +631,10 @@ def clone_state(st):
     return st.copy()
 
 
+def members_of(st):
+    return [x for x in (getattr(st, 'state1', None), getattr(st, 'state2', None)) if x is not None] + list(getattr(st, 'states', ()))
+
+
 def fresh_mask(d, st):
     try:
         return W.mask_of(d, clone_state(st))
@@ -681,7 +705,7 @@ def observe(w):
     out = []
     groups = list(w.dc.subset_groups)
     for d in w.dc:
-        rec = {'label': d.label, 'shape': list(d.shape), 'vals': [], 'masks': [], 'stats': [], 'hist': [], 'free': [], 'viewer': []}
+        rec = {'label': d.label, 'shape': list(d.shape), 'vals': [], 'masks': [], 'stats': [], 'hist': [], 'free': [], 'viewer': [], 'members': []}
         for c in d.components:
             try:
                 rec['vals'].append([c.label, W.arr_digest(d[c])])
@@ -695,6 +719,11 @@ def observe(w):
         nums = [c for c in d.main_components if d.get_kind(c) == 'numerical'][:2]
         for gi, g in enumerate(groups):
             w.mark_read(g.subset_state)
+            # members before the whole: in the cold twin they are then evaluated before anything could have written into
+            # their cache entries
+            for mi, kid in enumerate(members_of(g.subset_state)[:3]):
+                ks, km = W.mask_of(d, kid)
+                rec['members'].append([gi, mi, W.arr_digest(km) if ks == 'ok' else ks])
             st, m = W.mask_of(d, g.subset_state)
             rec['masks'].append([gi, W.arr_digest(m) if st == 'ok' else st])
             if st == 'ok' and gi > 1 and nums:
@@ -747,7 +776,7 @@ def observe(w):
                     continue
                 try:
                     edges, vals = la.state.histogram
-                    rec[0]['viewer'].append([gi, vs.x_att.label, [float(x) for x in np.asarray(vals).ravel()]])
+                    rec[0]['viewer'].append([gi, vs.x_att.label, [float(x) for x in np.asarray(vals).ravel()], bool(vs.normalize), bool(vs.cumulative)])
                 except Exception as e:
                     pass
     return out
@@ -757,16 +786,26 @@ def first_diff(a, b):
     if len(a) != len(b):
         return 'number of datasets %d vs %d' % (len(a), len(b)), 'structure'
     for ra, rb in zip(a, b):
-        for key in ('shape', 'vals', 'masks', 'stats', 'hist', 'free'):
+        for key in ('shape', 'vals', 'masks', 'stats', 'hist', 'free', 'members'):
             if ra[key] != rb[key]:
                 xa = [x for x in ra[key] if x not in rb[key]]
                 xb = [x for x in rb[key] if x not in ra[key]]
                 return 'dataset %s %s: warm world %s, cold twin %s' % (ra['label'], key, xa[:2], xb[:2]), key
         for ent in ra['viewer']:
             exp = [h for h in rb['hist'] if h[:2] == ent[:2]]
-            if exp and isinstance(exp[0][2], list) and exp[0][2] != ent[2]:
-                return 'dataset %s: the histogram viewer shows %s for attribute %s selection %s, cold twin computes %s' % (
-                    ra['label'], ent[2], ent[1], ent[0], exp[0][2]), 'viewer-histogram'
+            if exp and isinstance(exp[0][2], list):
+                want = np.array(exp[0][2], dtype=float)
+                with np.errstate(all='ignore'):
+                    if ent[4]:
+                        want = want.cumsum()
+                        if ent[3]:
+                            want = want / want.max()
+                    elif ent[3]:
+                        want = want / (want.sum() * 3.0)        # bin width of the fixed (-5, 13, 6) binning
+                got = np.array(ent[2], dtype=float)
+                if got.shape != want.shape or not np.allclose(got, want, rtol=1e-12, atol=0, equal_nan=True):
+                    return 'dataset %s: the histogram viewer shows %s for attribute %s selection %s (normalize=%s cumulative=%s), from the cold twin\'s counts %s' % (
+                        ra['label'], ent[2], ent[1], ent[0], ent[3], ent[4], want.tolist()), 'viewer-histogram'
     return None, None
 
 
